@@ -51,6 +51,9 @@ func (e *Engine) verifyFunc(fn *ssa.Function, c *Contract, sweep bool) (u *Unit,
 	if fn.Recover != nil {
 		u.note(u.key + ": recover block is not entered (absence of panics is proved separately)")
 	}
+	if c != nil && c.DirectPkg != "" {
+		u.directWritesCheck()
+	}
 	u.findLoops()
 	st := &State{vals: map[ssa.Value]Term{}, locs: map[ssa.Value]Loc{}, tuples: map[ssa.Value][]Term{}, heap: map[string]Term{},
 		iters: map[ssa.Value]*iterState{}, ghost: map[string]Term{}, variant: map[*ssa.BasicBlock]Term{}, entered: map[*ssa.BasicBlock]bool{}}
@@ -691,6 +694,14 @@ func (u *Unit) loopEnter(st *State, from, h *ssa.BasicBlock) {
 }
 
 func (u *Unit) loopBackEdge(st *State, from, h *ssa.BasicBlock) {
+	// vacuity: the end of the body must be reachable under the contracts of the callees (first paths only)
+	if u.backCovers == nil {
+		u.backCovers = map[*ssa.BasicBlock]int{}
+	}
+	if u.backCovers[h] < 3 {
+		u.backCovers[h]++
+		u.cover(st, from.Instrs[len(from.Instrs)-1].Pos(), fmt.Sprintf("loop %d body end is reachable (path %d)", u.headers[h], u.backCovers[h]))
+	}
 	in := u.phiIncoming(st, from, h)
 	{
 		// ghost updates at the end of the body see the new values by name and the values at the
@@ -1148,6 +1159,82 @@ func (u *Unit) typeFrameCheck() {
 		o.Result, o.Solver = "unsat", "gocv-typeframe"
 	} else {
 		o.Result, o.Solver = "sat", "gocv-typeframe"
+		o.Output = strings.Join(bad, "\n")
+	}
+	o.Decided = true
+	u.obls = append(u.obls, o)
+}
+
+// directWritesCheck decides a `directwrites P: T.f, ...` clause syntactically: every store of the body (and of
+// its closures) through the address of a field of a struct type of package P, or into an element of a slice
+// or array of such structs, names a listed field. Stores made by callees are the callees' business (their
+// contracts); stores to P-typed values that live in local allocations are included (conservative).
+func (u *Unit) directWritesCheck() {
+	c := u.contract
+	allowed := map[string]bool{}
+	for _, f := range c.DirectFields {
+		allowed[f] = true
+	}
+	var bad []string
+	var visit func(f *ssa.Function)
+	visit = func(f *ssa.Function) {
+		for _, b := range f.Blocks {
+			for _, ins := range b.Instrs {
+				var addr ssa.Value
+				switch x := ins.(type) {
+				case *ssa.Store:
+					addr = x.Addr
+				case *ssa.MapUpdate:
+					continue
+				default:
+					continue
+				}
+				for depth := 0; addr != nil && depth < 6; depth++ {
+					switch a := addr.(type) {
+					case *ssa.FieldAddr:
+						st := a.X.Type().Underlying().(*types.Pointer).Elem()
+						if n, ok := types.Unalias(st).(*types.Named); ok && n.Obj().Pkg() != nil && n.Obj().Pkg().Path() == c.DirectPkg {
+							name := n.Obj().Name() + "." + st.Underlying().(*types.Struct).Field(a.Field).Name()
+							if !allowed[name] {
+								bad = append(bad, fmt.Sprintf("%s: store to %s", u.posString(ins.Pos()), name))
+							}
+							addr = nil
+						} else {
+							addr = a.X
+						}
+					case *ssa.IndexAddr:
+						var et types.Type
+						switch xt := a.X.Type().Underlying().(type) {
+						case *types.Slice:
+							et = xt.Elem()
+						case *types.Pointer:
+							if at, ok := xt.Elem().Underlying().(*types.Array); ok {
+								et = at.Elem()
+							}
+						}
+						if n, ok := types.Unalias(et).(*types.Named); ok && n.Obj().Pkg() != nil && n.Obj().Pkg().Path() == c.DirectPkg && allocRoot(a) == nil {
+							// (an element of an array allocated here, e.g. the argument list of append, is the body's own)
+							bad = append(bad, fmt.Sprintf("%s: store to an element of []%s", u.posString(ins.Pos()), n.Obj().Name()))
+						}
+						addr = nil
+					default:
+						addr = nil
+					}
+				}
+			}
+		}
+		for _, af := range f.AnonFuncs {
+			visit(af)
+		}
+	}
+	visit(u.fn)
+	o := &Obligation{Name: u.key + "#directwrites:" + c.DirectPkg, Kind: "assert", Func: u.key,
+		Clause: "the body stores to no field of a type of " + c.DirectPkg + " other than " + strings.Join(c.DirectFields, ", "),
+		Goal:   tTrue, unit: u, Tags: []string{"C03"}}
+	if len(bad) == 0 {
+		o.Result, o.Solver = "unsat", "gocv-directwrites"
+	} else {
+		o.Result, o.Solver = "sat", "gocv-directwrites"
 		o.Output = strings.Join(bad, "\n")
 	}
 	o.Decided = true
